@@ -46,6 +46,7 @@ type VPacketConn struct {
 }
 
 func (c *VPacketConn) ReadFrom(p []byte) (int, net.Addr, error) {
+	vWaitGate()
 	if c.ReadPos >= len(c.Script) {
 		return 0, nil, net.ErrClosed
 	}
@@ -103,6 +104,7 @@ type VListener struct {
 }
 
 func (l *VListener) Accept() (net.Conn, error) {
+	vWaitGate()
 	if l.Pos >= len(l.Script) {
 		return nil, net.ErrClosed
 	}
